@@ -164,7 +164,10 @@ CLAIMED = {
              "that are not wired to each other and feed no common port can be compiled in either order - the same two compiled "
              "children, the same later children, an equivalent parameter map; and so (compile_children_reorder / go_children_reorder) for any "
              "two processing orders connected by a sequence of such swaps: the same children as a multiset, an equivalent map. "
-             "Partial: that every two topological orders are connected by such swaps, the parent's own values after its children, independence from the choice among topological processing orders and order-insensitivity of "
+             "topological_orders_connected: every two orders in which no child is fed by a later one are so connected; "
+             "children_order_ordered: the compiler's own order (Kahn) is one; children_listing_free composes them: however the "
+             "children are listed, the loop compiles the same children and an equivalent map (hypothesis: no port fed by two "
+             "different children, which verify_topology enforces). Partial: the parent's own values after its children, independence from the choice among topological processing orders and order-insensitivity of "
              "the preprocessing stages are exercised by the hier-permute stream (all list-valued fields permuted at every level; "
              "thorough: all child permutations up to 4 children) on the real code.",
         design_ref="DESIGN.md section 5 C09",
